@@ -345,11 +345,11 @@ theorem kvSum_private (m : Mapping) (hkv : ∀ e ∈ m.kv, wfKV e = true)
 
 /-! ### _parse_smaps on a rendered file -/
 
-theorem parseSmaps_rendered (c : Cfg) (hg : c.Good) {strips : Bool} (K : List Bytes) (hK : K ≠ [])
+theorem parseSmapsLines_rendered (c : Cfg) (hg : c.Good) {strips : Bool} (K : List Bytes) (hK : K ≠ [])
     (hnd : K.Nodup) (m : Mapping) (ms : List Mapping) (hw : ∀ x ∈ m :: ms, WfM strips K x) :
-    parseSmaps c (renderSmaps (m :: ms)) = specFull (m :: ms) := by
+    parseSmapsLines c (renderSmaps (m :: ms)) = specFull (m :: ms) := by
   obtain ⟨_, hsplit⟩ := smaps_lines K hK m ms hw
-  unfold parseSmaps
+  unfold parseSmapsLines
   rw [hsplit, hg.smapsFactor]
   simp only [List.drop_succ_cons, List.drop_zero]
   rw [sumMatches_restLines _ ignores_matchPrivate, sumMatches_restLines _ ignores_matchKey_pss,
@@ -367,24 +367,6 @@ theorem parseSmaps_rendered (c : Cfg) (hg : c.Good) {strips : Bool} (K : List By
     List.map_congr_left fun x hxm => kvSum_key bSwap (by decide) x (hx x hxm).2 (hx x hxm).1
   rw [e1, e2, e3]
   simp only [specFull, Nat.mul_comm]
-
-theorem full_info_smaps (c : Cfg) (hg : c.Good) (pagesize : Nat) (st : Statm) (ms : List Mapping)
-    (rollup : FileRes) (hne : ms ≠ []) (hwf : wfSmaps false ms = true) :
-    memoryFullInfo c false pagesize rollup (renderSmaps ms) (renderStatm st)
-      = .ok (specFullInfo pagesize st ms) := by
-  cases ms with
-  | nil => exact absurd rfl hne
-  | cons m ms' =>
-    unfold wfSmaps keysOf at hwf
-    simp only [Bool.and_eq_true, Bool.not_eq_true', decide_eq_true_eq, List.all_eq_true] at hwf
-    obtain ⟨⟨hne', hnd⟩, hall⟩ := hwf
-    have hK : m.kv.map (·.key) ≠ [] := by
-      intro e; rw [e] at hne'; simp at hne'
-    have hw : ∀ x ∈ m :: ms', WfM false (m.kv.map (·.key)) x := fun x hx => wfMapping_spec (hall x hx)
-    unfold memoryFullInfo
-    simp only [Bool.false_eq_true, if_false]
-    rw [parseSmaps_rendered c hg _ hK hnd m ms' hw, statm_roundtrip c hg pagesize st]
-    rfl
 
 /-! ### _parse_smaps_rollup on the rendered roll-up -/
 
@@ -724,37 +706,5 @@ theorem fold_rollup_spec (all : List Mapping) (K : List Bytes) (hKnd : K.Nodup)
     · rw [if_neg hk]
       show 0 = 1024 * total all bSwap
       rw [habs bSwap (by decide) hk]
-
-theorem rollup_agrees (c : Cfg) (hg : c.Good) (ms : List Mapping) (hne : ms ≠ [])
-    (hwf : wfSmaps false ms = true) :
-    parseSmapsRollup c (renderRollup (rollupKeysOf ms) ms) = .ok (parseSmaps c (renderSmaps ms)) := by
-  cases ms with
-  | nil => exact absurd rfl hne
-  | cons m ms' =>
-    unfold wfSmaps keysOf at hwf
-    simp only [Bool.and_eq_true, Bool.not_eq_true', decide_eq_true_eq, List.all_eq_true] at hwf
-    obtain ⟨⟨hne', hnd⟩, hall⟩ := hwf
-    have hK : m.kv.map (·.key) ≠ [] := by
-      intro e; rw [e] at hne'; simp at hne'
-    have hw : ∀ x ∈ m :: ms', WfM false (m.kv.map (·.key)) x := fun x hx => wfMapping_spec (hall x hx)
-    rw [parseSmaps_rendered c hg _ hK hnd m ms' hw]
-    have hKsub : ∀ k ∈ rollupKeysOf (m :: ms'), ∃ e ∈ m.kv, e.key = k ∧ e.kb = true := by
-      intro k hk
-      obtain ⟨e, he, hek⟩ := List.mem_map.mp hk
-      have := List.mem_filter.mp he
-      exact ⟨e, this.1, hek, this.2⟩
-    have hKnd : (rollupKeysOf (m :: ms')).Nodup := by
-      unfold rollupKeysOf
-      exact List.Nodup.sublist ((List.filter_sublist).map _) hnd
-    have hwfRoll : ∀ e ∈ (rollupKeysOf (m :: ms')).map (mkRoll (m :: ms')), wfKV e = true := by
-      intro e he
-      obtain ⟨k, hk, rfl⟩ := List.mem_map.mp he
-      obtain ⟨e0, he0, hek, hkb⟩ := hKsub k hk
-      rw [← hek]
-      exact wfKV_mkRoll ((hw m (by simp)).kv e0 he0) hkb _
-    have habs : ∀ k0 ∈ special, k0 ∉ rollupKeysOf (m :: ms') → total (m :: ms') k0 = 0 :=
-      fun k0 hs hk => total_absent m ms' hw k0 hs hk
-    rw [rollup_parse c hg _ _ (fun e he => wfKV_key (hwfRoll e he)),
-      fold_rollup_spec (m :: ms') _ hKnd hwfRoll habs]
 
 end Psutil.C13
